@@ -14,8 +14,22 @@ from .ops import OP_TABLE, carried_nodes
 BUILTIN_ESCAPES = (AttributeError, KeyError, ValueError, IndexError, TypeError)
 
 
+class OutOfModel(Exception):
+    """the document holds timing text that is no number / no time stamp: outside every precondition"""
+
+
 def _ts(s):
-    return datetime.strptime(s, '%Y-%m-%dT%H:%M:%S')
+    try:
+        return datetime.strptime(s, '%Y-%m-%dT%H:%M:%S')
+    except ValueError:
+        raise OutOfModel(s)
+
+
+def _fl(s):
+    try:
+        return float(s)
+    except ValueError:
+        raise OutOfModel(s)
 
 
 def _payload(story):
@@ -31,11 +45,11 @@ def exp_duration(story):
         return None
     sd = child_text(pl, 'StoryDuration')
     if sd is not None:
-        return float(sd)
+        return _fl(sd)
     tt, mt = child_text(pl, 'TextTime'), child_text(pl, 'MediaTime')
     if tt is None and mt is None:
         return None
-    return (float(tt) if tt is not None else 0) + (float(mt) if mt is not None else 0)
+    return (_fl(tt) if tt is not None else 0) + (_fl(mt) if mt is not None else 0)
 
 
 def exp_explicit(story, tag):
@@ -101,11 +115,19 @@ def exp_note(item):
     return t[2] if t[2] != '' else None
 
 
-def check_accessors(ro, add, order=None):
-    """C15 / C16 / C17 on one state.  ``add(clause, detail)`` records a violation."""
+def check_accessors(ro, add, order=None, doc=None):
+    """C15 / C16 / C17 on one state.  ``add(clause, detail)`` records a violation.  The accessors are compared with
+    the live document, or with *doc* (canon) when the caller knows the document as it was sent."""
+    try:
+        _check_accessors(ro, add, order, doc)
+    except OutOfModel:
+        pass
+
+
+def _check_accessors(ro, add, order=None, doc=None):
     from xml.etree import ElementTree
     before = ElementTree.tostring(ro.xml, encoding='unicode')
-    root = canon_et(ro.xml)
+    root = doc if doc is not None else canon_et(ro.xml)
     v = RoView(root)
     if v.rc is None:
         return      # no running-order element at all: C14.envelope reports that; there is nothing to read
